@@ -25,7 +25,7 @@ DEFAULT_TTL = 3600
 class JobM:
     __slots__ = ("jobid", "serial", "channel", "priority", "payload", "deadline", "ttl",
                  "state", "holder", "result", "error", "info", "finished_at", "fin_ttl",
-                 "deliveries", "requeues", "ttl_uncertain", "ttl_observed", "drop", "waited", "restored")
+                 "deliveries", "requeues", "ttl_uncertain", "ttl_observed", "drop", "waited", "restored", "ttl_explicit")
 
     def __init__(self, jobid, serial, channel, priority, payload, deadline, ttl):
         self.jobid = jobid
@@ -48,6 +48,7 @@ class JobM:
         self.ttl_observed = False
         self.drop = False
         self.restored = False  # lived through a server restart
+        self.ttl_explicit = False  # the client asked for this time-to-live itself
         self.waited = False
 
     @property
@@ -203,7 +204,10 @@ class QsModel:
             for j in pend:
                 srv = table.get(j.jobid)
                 if srv is not None and getattr(srv, "serial", None) == j.serial and isinstance(getattr(srv, "ttl", None), (int, float)):
-                    j.fin_ttl = srv.ttl
+                    # (a job that finished WITHOUT error and whose client asked for a time-to-live itself
+                    # keeps at least that one)
+                    if not (j.error is None and j.ttl_explicit and srv.ttl < j.ttl):
+                        j.fin_ttl = srv.ttl
                     j.ttl_observed = True
         except AttributeError:
             pass
@@ -285,6 +289,7 @@ class QsModel:
                      a.get("priority", 0), a.get("payload"),
                      now + (DEFAULT_TIMEOUT if timeout is None else timeout),
                      DEFAULT_TTL if ttl is None else ttl)
+            j.ttl_explicit = ttl is not None
             self.jobs[j.jobid] = j
             waiters = self._blocked_match(j.channel)
             if waiters:
@@ -598,7 +603,10 @@ class QsModel:
                     # properties only say "dropped after its time-to-live", not how long it is)
                     obs = getattr(srv, "ttl", None)
                     if isinstance(obs, (int, float)) and not j.ttl_observed:
-                        j.fin_ttl = obs
+                        # ... except that a job which finished WITHOUT error and whose client asked for a
+                        # time-to-live itself keeps at least that one
+                        if not (j.error is None and j.ttl_explicit and obs < j.ttl):
+                            j.fin_ttl = obs
                         j.ttl_observed = True
                 continue
             if j.state != "d":
